@@ -10,6 +10,11 @@ package server
 // output lines: <id> key=value ...  (see vfC06Handshake)
 
 import (
+	"bytes"
+	"crypto/aes"
+	"crypto/cipher"
+	"encoding/base64"
+	"encoding/binary"
 	"fmt"
 	"strconv"
 	"strings"
@@ -126,6 +131,84 @@ func vfC06Handshake(id string, f []string) string {
 	return out
 }
 
+// A first packet the CLIENT CODE never produces: shaped like the real one of this configuration, but with an ephemeral
+// value chosen by the sender (a small-order X25519 input, hex in f[2]) and a block sealed under a key of the sender's
+// choosing (hex in f[3]) - the server's public key is not used.  What does the real server-side parser + decryptor
+// say, what does the model's server_process say?
+//   <id> FP <direct|cdn> <chrome|firefox|safari> <u hex> <key hex> <seed>
+func vfC06Forged(id string, f []string) string {
+	u, key, seed := vfC06Unhex(f[2]), vfC06Unhex(f[3]), f[4]
+	serverNow := time.Unix(1700000000, 0)
+	cfg := vfC06Cfg{transport: f[0], browser: f[1], encName: "aes-gcm", sid: 7, serverName: "www.example.com",
+		uid: []byte("0123456789abcdef"), method: "shadowsocks", clientNow: serverNow, seed: seed}
+	k := vfC06MakeKeys(seed)
+	srv := vfC06NewServer(k, cfg.uid, cfg.method, serverNow, seed, vfC06NewPanel())
+	cl, err := vfC06NewClient(k, cfg)
+	if err != nil || len(u) != 32 || len(key) != 32 {
+		return fmt.Sprintf("%s cfgerr=%q", id, fmt.Sprint(err))
+	}
+	cdn := cfg.transport == "cdn"
+	link := vfC06Connect(srv, cdn)
+	resCh := make(chan error, 1)
+	go func() {
+		_, err := cl.tr.Handshake(link.clientEnd, cl.auth)
+		resCh <- err
+	}()
+	select {
+	case <-resCh:
+	case <-time.After(30 * time.Second):
+	}
+	rd, _, _ := link.tap.snapshot()
+	link.clientEnd.Close()
+	vfC06CloseSession(srv.sta.Panel, cfg.uid, cfg.sid)
+	var tr Transport = TLS{}
+	trName := "tls"
+	if cdn {
+		tr, trName = WebSocket{}, "ws"
+	}
+	frag, _, perr := tr.processFirstPacket(append([]byte{}, rd...), srv.sta.StaticPv)
+	if perr != nil {
+		return fmt.Sprintf("%s cfgerr=%q", id, "template first packet does not parse: "+perr.Error())
+	}
+	// the 48-byte plaintext as the property documents it, sealed with the standard library
+	pt := make([]byte, 48)
+	copy(pt, cfg.uid)
+	copy(pt[16:28], cfg.method)
+	pt[28] = 1
+	binary.BigEndian.PutUint64(pt[29:37], uint64(serverNow.Unix()))
+	binary.BigEndian.PutUint32(pt[37:41], cfg.sid)
+	blk, _ := aes.NewCipher(key)
+	aead, _ := cipher.NewGCM(blk)
+	block := aead.Seal(nil, u[:12], pt, nil)
+	forged := append([]byte{}, rd...)
+	var fp []byte
+	if !cdn {
+		ks := bytes.Index(forged, frag.ciphertextWithTag[32:64])
+		if ks < 0 || forged[43] != 32 {
+			return fmt.Sprintf("%s cfgerr=%q", id, "template layout")
+		}
+		copy(forged[11:43], u)
+		copy(forged[44:76], block[:32])
+		copy(forged[ks:ks+32], block[32:])
+		fp = forged
+	} else {
+		old := vfC06HiddenOf(rd)
+		nw := base64.StdEncoding.EncodeToString(append(append([]byte{}, u...), block...))
+		forged = bytes.Replace(forged, []byte(old), []byte(nw), 1)
+		fp = []byte(nw)
+	}
+	fresh := vfC06NewServer(k, cfg.uid, cfg.method, serverNow, seed, vfC06NewPanel())
+	ci, _, aerr := AuthFirstPacket(forged, tr, fresh.sta)
+	out := fmt.Sprintf("%s tr=%s", id, trName)
+	if aerr == nil {
+		out += " S=" + vfC06ShowCI(ci)
+	} else {
+		out += " S=R:" + vfC06ErrClass(aerr)
+	}
+	_, xerr := curve25519.X25519(k.spv[:], u)
+	return out + fmt.Sprintf(" fp=%s spv=%s snow=%d x25519err=%s", vfC06Hex(fp), vfC06Hex(k.spv[:]), serverNow.UnixNano(), vfC06B(xerr != nil))
+}
+
 func vfC06Decrypt(id string, f []string) string {
 	pt := vfC06Unhex(f[0])
 	sec, _ := strconv.ParseInt(f[1], 10, 64)
@@ -176,6 +259,10 @@ func TestVerifC06(t *testing.T) {
 			case "D":
 				if len(f) == 5 {
 					line = vfC06Decrypt(f[0], f[2:])
+				}
+			case "FP":
+				if len(f) == 7 {
+					line = vfC06Forged(f[0], f[2:])
 				}
 			}
 		}()
